@@ -24,6 +24,7 @@ CONTRACTS = {
     # recording the failure: builds the traceback and the runtime feedback (may format student objects)
     'self._capture_exception': 'NONE',
     'self._was_terminated': 'NONE', 'self._execute_with_timeout': 'NONE',
+    '_verif_sync': 'NONE',               # guarded verification hook: a no-op unless a checker installs a callback
     'timeout': ['ETimeout'] + exnflow.EXC,
 }
 
